@@ -4,6 +4,13 @@ import "verif/checker/internal/core"
 
 func init() {
 	register(&Prop{
+		ID:    "C12",
+		Rules: []*Rule{rRetain, rErrRefs, rHideKeep, rCodec},
+		Explain: "Decides that every input the library declares PII-free reaches a SAFE position (redact format string, redact.Safe argument, or a field handed out by SafeDetails()/printed as Safe) through every forwarding layer - so it is not redacted away; that captured error arguments are attached as secondary errors on every path; that content behind barriers/secondary errors is folded into SafeDetails() and printed; and (R-CODEC) that those fields have wire-slot agreement so they are still there after a hop. " +
+			"NOT decided: presence of a given token in the final report text (string-level), GetAllSafeDetails' per-layer walk beyond UnwrapOnce.",
+		Trusted: []string{"go/ssa", "the safe-input contract of DESIGN §4.5"},
+	})
+	register(&Prop{
 		ID:    "C18",
 		Rules: []*Rule{rEffect},
 		Explain: "Decides, for every schedule at once, that no hand-written module function reachable from a read-only operation writes to state shared between goroutines: not to (anything reachable from) an error object through a non-fresh pointer, not to a package-level variable or map (unless under a dominating Lock()), and that no map iteration order can reach a result (determinism). " +
